@@ -138,11 +138,13 @@ const char* water_approach(Opm::WaterPvtApproach a)
 
 // {cmd:pvt_eval, deck:"...", temp: T[K], queries:[[ph, fn, region, p, r, hp, hr], ...]}   (SI, hex or decimal)
 // -> {approach:{oil,gas,water}, nreg:{...},
-//     res:[[v_double, v_ad, d/dp, d/dr, d/dT, f(p-hp), f(p+hp), f(r-hr), f(r+hr)] | {"exc":..., "what":...}, ...]}
+//     res:[[v_double, v_ad, d/dp, d/dr, d/dT, f(p-hp), f(p+hp), f(r-hr), f(r+hr) (, the same four with steps big*h)]
+//          | {"exc":..., "what":...}, ...]}   ("big": optional request member)
 // AD variables: p = variable 0, r = variable 1, T = variable 2.
 PROBE_CMD(pvt_eval) {
     const std::string text = jstr(req, "deck");
     const double temp = jdouble(req, "temp", 300.0);
+    const double big = jdouble(req, "big", 0.0);
 
     Opm::ParseContext ctx(Opm::InputErrorAction::THROW_EXCEPTION);
     Opm::ErrorGuard guard;
@@ -191,13 +193,20 @@ PROBE_CMD(pvt_eval) {
             const Eval re = Eval::createVariable(r, 1);
             const Eval te = Eval::createVariable(temp, 2);
             const Eval va = dispatch<Eval>(s, ph[0], fn, reg, te, pe, re);
-            out.arr().d(vd).d(va.value()).d(va.derivative(0)).d(va.derivative(1)).d(va.derivative(2));
-            // neighbours for difference quotients (double arguments); step 0 = not requested
+            // evaluate everything first: an exception of a neighbour evaluation must not leave a half-written array
+            std::vector<double> v{vd, va.value(), va.derivative(0), va.derivative(1), va.derivative(2)};
             const double nan = std::nan("");
-            out.d(hp != 0.0 ? dispatch<double>(s, ph[0], fn, reg, temp, p - hp, r) : nan);
-            out.d(hp != 0.0 ? dispatch<double>(s, ph[0], fn, reg, temp, p + hp, r) : nan);
-            out.d(hr != 0.0 ? dispatch<double>(s, ph[0], fn, reg, temp, p, r - hr) : nan);
-            out.d(hr != 0.0 ? dispatch<double>(s, ph[0], fn, reg, temp, p, r + hr) : nan);
+            // neighbours for difference quotients (double arguments); step 0 = not requested;
+            // then the same with the wider step big*h
+            for (const double k : {1.0, big}) {
+                if (k == 0.0) continue;
+                v.push_back(hp != 0.0 ? dispatch<double>(s, ph[0], fn, reg, temp, p - k * hp, r) : nan);
+                v.push_back(hp != 0.0 ? dispatch<double>(s, ph[0], fn, reg, temp, p + k * hp, r) : nan);
+                v.push_back(hr != 0.0 ? dispatch<double>(s, ph[0], fn, reg, temp, p, r - k * hr) : nan);
+                v.push_back(hr != 0.0 ? dispatch<double>(s, ph[0], fn, reg, temp, p, r + k * hr) : nan);
+            }
+            out.arr();
+            for (const double x : v) out.d(x);
             out.end_arr();
         } catch (const BadRequest&) {
             throw;
